@@ -341,8 +341,8 @@ func checkMessage(payload, wire []byte, psize, hdrType, chanId, firstNr int, cur
 func txOracle(line, out string) string {
 	i := strings.LastIndex(out, " # ")
 	if i < 0 {
-		if out == "panic" || out == "timeout" {
-			return "sending never crashes or hangs"
+		if out == "panic" || out == "timeout" || out == "crash" {
+			return "no call crashes or hangs the process (panic in the caller's or in the reader's goroutine, endless loop)"
 		}
 		return ""
 	}
